@@ -33,6 +33,65 @@ const WIDE_Q: &str = "SELECT * FROM ks1.wide WHERE w = ";
 const VEC_Q: &str = "SELECT vec FROM ks1.vecs WHERE w = ";
 const VEC_CLASS: &str = "org.apache.cassandra.db.marshal.VectorType(org.apache.cassandra.db.marshal.FloatType, 5)";
 
+/// The native types the wide row lacks, as raw type ids: decimal, varint, float, date,
+/// time, duration, timeuuid.
+const EXTRA_Q: &str = "SELECT * FROM ks1.extra WHERE w = ";
+
+fn extra_cols() -> Vec<ColSpec> {
+    let c = |n: &str, id: u16| col("ks1", "extra", n, CType::Raw(id, vec![]));
+    vec![c("de", 0x0006), c("vi", 0x000E), c("fl", 0x0008), c("da", 0x0011), c("tm", 0x0012), c("du", 0x0015), c("tu", 0x000F)]
+}
+
+fn extra_cells(r: u8) -> Vec<Vec<u8>> {
+    let mut tu = [0x11u8; 16];
+    tu[6] = 0x10 | (tu[6] & 0x0f); // version 1
+    tu[8] = 0x80 | (tu[8] & 0x3f);
+    tu[15] = r;
+    vec![
+        [2i32.to_be_bytes().to_vec(), vec![0x04, 0xD2 + r]].concat(),
+        vec![0x01, r],
+        (1.5f32 + r as f32).to_be_bytes().to_vec(),
+        ((1u32 << 31) + 19000 + r as u32).to_be_bytes().to_vec(),
+        (3_600_000_000_000i64 + r as i64).to_be_bytes().to_vec(),
+        vec![0x02, 0x04, 0x06 + 2 * r],
+        tu.to_vec(),
+    ]
+}
+
+fn extra_rows() -> Vec<Vec<Cell>> {
+    (0..3u8).map(|r| extra_cells(r).into_iter().map(Cell::Blob).collect()).collect()
+}
+
+type ExtraTyped = (
+    scylla::value::CqlDecimal,
+    scylla::value::CqlVarint,
+    f32,
+    scylla::value::CqlDate,
+    scylla::value::CqlTime,
+    scylla::value::CqlDuration,
+    scylla::value::CqlTimeuuid,
+);
+
+fn extra_expected() -> Vec<ExtraTyped> {
+    (0..3u8)
+        .map(|r| {
+            let mut tu = [0x11u8; 16];
+            tu[6] = 0x10 | (tu[6] & 0x0f);
+            tu[8] = 0x80 | (tu[8] & 0x3f);
+            tu[15] = r;
+            (
+                scylla::value::CqlDecimal::from_signed_be_bytes_and_exponent(vec![0x04, 0xD2 + r], 2),
+                scylla::value::CqlVarint::from_signed_bytes_be(vec![0x01, r]),
+                1.5f32 + r as f32,
+                scylla::value::CqlDate((1u32 << 31) + 19000 + r as u32),
+                scylla::value::CqlTime(3_600_000_000_000i64 + r as i64),
+                scylla::value::CqlDuration { months: 1, days: 2, nanoseconds: 3 + r as i64 },
+                scylla::value::CqlTimeuuid::from_bytes(tu),
+            )
+        })
+        .collect()
+}
+
 fn vec_col() -> ColSpec {
     let mut class = W::new();
     class.string(VEC_CLASS);
@@ -267,6 +326,7 @@ fn check_error(i: u64, e: &DbError, rate_limit: bool) -> bool {
 }
 
 struct C08Script {
+    cell_cut: Option<(usize, usize)>,
     vec_cell_len: Option<usize>,
     nometa_bomb: Option<i32>,
     deep_nesting: Option<usize>,
@@ -380,8 +440,23 @@ impl Script for C08Script {
         Reply::Default
     }
     fn rows_for(&mut self, _w: &mut World, rq: &ReqInfo, stmt: &StmtDef) -> Vec<Vec<Cell>> {
-        if stmt.shape == WIDE_Q {
-            return wide_rows();
+        if stmt.shape == WIDE_Q || stmt.shape == EXTRA_Q {
+            let wide = stmt.shape == WIDE_Q;
+            let mut rows = if wide { wide_rows() } else { extra_rows() };
+            if let Some((c, len)) = self.cell_cut {
+                let c = if wide { c } else { c.wrapping_sub(17) };
+                for r in rows.iter_mut() {
+                    if let Some(cell) = r.get_mut(c) {
+                        if let Some(b) = cell.encode() {
+                            if b.len() > len {
+                                *cell = Cell::Blob(b[..len].to_vec());
+                                _w.fault(world::Fault::Corrupt);
+                            }
+                        }
+                    }
+                }
+            }
+            return rows;
         }
         if stmt.shape == VEC_Q {
             let mut rows = vec_rows();
@@ -454,6 +529,9 @@ struct Plan {
     /// Field-aware mutation: the cells of the vector<float, 5> column are cut to this many
     /// bytes (the metadata still says 5 floats).
     vec_cell_len: Option<usize>,
+    /// Field-aware mutation: in the wide rows (columns 0..16) or the extra-types rows
+    /// (columns 17..23) the cells of one column are cut to this many bytes.
+    cell_cut: Option<(usize, usize)>,
 }
 
 /// Prepared statement with a three-column partition key (and the marker bind).
@@ -578,6 +656,7 @@ pub fn run(req: &RunRequest) -> Value {
                 pk_fuzz: None,
                 nometa_bomb: None,
                 vec_cell_len: None,
+                cell_cut: None,
             }
         } else {
             let fault_free = tape::chance("c08:fault_free", 1, 10);
@@ -588,16 +667,17 @@ pub fn run(req: &RunRequest) -> Value {
             } else {
                 None
             };
+            let cellfuzz = !fault_free && !deep && !custom && tape::chance("c08:cellfuzz", 1, 6);
             let deep = deep || custom;
             Plan {
                 enumerated: false,
                 custom_types,
-                target_frame: if fault_free || deep {
+                target_frame: if fault_free || deep || cellfuzz {
                     None
                 } else {
                     Some(tape::choose("c08:frame", ENUM_FRAMES + 20))
                 },
-                mutation: if fault_free || deep { None } else { Some(draw_mutation()) },
+                mutation: if fault_free || deep || cellfuzz { None } else { Some(draw_mutation()) },
                 deep_nesting: if deep && !custom {
                     Some([8, 64, 1000, 20_000, 120_000][tape::choose("c08:depth", 5) as usize])
                 } else {
@@ -617,6 +697,11 @@ pub fn run(req: &RunRequest) -> Value {
                 },
                 nometa_bomb: if deep && !custom && tape::chance("c08:nometa_bomb", 1, 2) {
                     Some([0, 1, 2, -1][tape::choose("c08:bomb_cols", 4) as usize])
+                } else {
+                    None
+                },
+                cell_cut: if cellfuzz {
+                    Some((tape::choose("c08:cut_col", 24) as usize, tape::choose("c08:cut_len", 9) as usize))
                 } else {
                     None
                 },
@@ -653,6 +738,22 @@ pub fn run(req: &RunRequest) -> Value {
             bind_cols: vec![],
             pk_indexes: vec![],
             result_cols: wide_cols(),
+            marker_bind: None,
+            schema_version: 0,
+            id_version: 0,
+        });
+        cluster.keyspaces[0].tables.push(TableDef {
+            name: "extra".into(),
+            partitioner: None,
+        });
+        cluster.catalog.push(StmtDef {
+            shape: EXTRA_Q.into(),
+            ks: "ks1".into(),
+            table: "extra".into(),
+            kind: StmtKind::Select,
+            bind_cols: vec![],
+            pk_indexes: vec![],
+            result_cols: extra_cols(),
             marker_bind: None,
             schema_version: 0,
             id_version: 0,
@@ -784,6 +885,7 @@ async fn main(plan: Plan) -> Outcome {
         let mut w = world::world();
         w.script = Some(Box::new(C08Script {
             nometa_bomb: plan.nometa_bomb,
+            cell_cut: plan.cell_cut,
             vec_cell_len: plan.vec_cell_len,
             deep_nesting: plan.deep_nesting,
             custom_types: plan.custom_types.clone(),
@@ -804,7 +906,7 @@ async fn main(plan: Plan) -> Outcome {
         fetch_schema: true,
         ..SessionCfg::default()
     };
-    let clean = plan.mutation.is_none() && plan.deep_nesting.is_none() && plan.custom_types.is_none() && plan.vec_cell_len.is_none() && plan.nometa_bomb.is_none();
+    let clean = plan.mutation.is_none() && plan.deep_nesting.is_none() && plan.custom_types.is_none() && plan.vec_cell_len.is_none() && plan.nometa_bomb.is_none() && plan.cell_cut.is_none();
     let session: Arc<Session> = {
         // Auth is negotiated by the mock regardless of the credentials.
         let built = step(&mut out, "session", async {
@@ -1017,6 +1119,33 @@ async fn main(plan: Plan) -> Outcome {
                 if clean {
                     out.violation("c08.roundtrip", format!("clean wide select failed: {e}"));
                 }
+            }
+        }
+    }
+    // S4d: the remaining native types (decimal, varint, float, date, time, duration,
+    // timeuuid) through the dynamic value type and through typed targets.
+    if let Some(r) = step(&mut out, "extra", session.query_unpaged(format!("{EXTRA_Q}1"), ())).await {
+        let decoded: Result<(usize, Vec<ExtraTyped>), String> = (|| {
+            let qr = r.map_err(|e| e.to_string())?;
+            let rr = qr.into_rows_result().map_err(|e| e.to_string())?;
+            let mut dynamic = 0usize;
+            for row in rr.rows::<Row>().map_err(|e| e.to_string())?.take(ROW_CAP) {
+                if row.is_ok() {
+                    dynamic += 1;
+                }
+            }
+            let mut typed = Vec::new();
+            for row in rr.rows::<ExtraTyped>().map_err(|e| e.to_string())?.take(ROW_CAP) {
+                if let Ok(t) = row {
+                    typed.push(t);
+                }
+            }
+            Ok((dynamic, typed))
+        })();
+        if clean {
+            match decoded {
+                Ok((3, t)) if t == extra_expected() => out.count("extra_types_equal", 1),
+                other => out.violation("c08.roundtrip", format!("extra native types decoded as {other:?}")),
             }
         }
     }
@@ -1279,7 +1408,7 @@ fn finish(mut out: Outcome, plan: &Plan) -> Outcome {
     if fired.is_some() {
         out.count(if plan.enumerated { "enum_truncations_fired" } else { "sampled_mutations_fired" }, 1);
     }
-    if plan.mutation.is_none() && plan.deep_nesting.is_none() && plan.custom_types.is_none() && plan.vec_cell_len.is_none() && plan.nometa_bomb.is_none() {
+    if plan.mutation.is_none() && plan.deep_nesting.is_none() && plan.custom_types.is_none() && plan.vec_cell_len.is_none() && plan.nometa_bomb.is_none() && plan.cell_cut.is_none() {
         out.count("clean_runs", 1);
     }
     // Annotate violations with the damage so that the message pins the input.
